@@ -14,7 +14,7 @@ def write(prop, name, expect, edits, note=""):
     # sanity: each old text occurs exactly once
     for e in edits:
         src = open(os.path.join("/repo", e["file"])).read()
-        if src.count(e["old"]) != 1:
+        if src.count(e["old"]) != 1 and not e.get("occurrence"):
             print("WARNING: old text occurs %d times in %s" % (src.count(e["old"]), e["file"]))
     print("wrote", os.path.join(d, name + ".json"))
 
@@ -67,16 +67,38 @@ def from_patch(patch, prop, name, expect, note=""):
     diff = open(patch).read()
     edits, f = [], None
     cur_old, cur_new = [], []
+    start = 0
     def flush():
         nonlocal cur_old, cur_new
         if f and (cur_old or cur_new) and cur_old != cur_new:
-            edits.append({"file": f, "old": "".join(cur_old), "new": "".join(cur_new)})
+            e = {"file": f, "old": "".join(cur_old), "new": "".join(cur_new)}
+            try:
+                src = open(os.path.join("/repo", f)).read()
+                if src.count(e["old"]) > 1:
+                    # choose the occurrence nearest to the hunk's line
+                    best, bestd, pos, k = 1, None, 0, 0
+                    while True:
+                        i = src.find(e["old"], pos)
+                        if i < 0:
+                            break
+                        k += 1
+                        line_no = src.count("\n", 0, i) + 1
+                        d = abs(line_no - start)
+                        if bestd is None or d < bestd:
+                            best, bestd = k, d
+                        pos = i + 1
+                    e["occurrence"] = best
+            except OSError:
+                pass
+            edits.append(e)
         cur_old, cur_new = [], []
     for line in diff.splitlines(keepends=True):
         if line.startswith("+++ b/"):
             flush(); f = line[6:].strip()
         elif line.startswith("@@"):
             flush()
+            mm_ = re.match(r"@@ -(\d+)", line)
+            start = int(mm_.group(1)) if mm_ else 0
         elif line.startswith("---") or line.startswith("diff ") or line.startswith("index ") or line.startswith("\\"):
             continue
         elif line.startswith("+"):
